@@ -535,6 +535,29 @@ def _run_random_case(ctx, case):
         ok, res = _call(ctx, "distance-crash", case, L.get_distance_between_locations, a, b, wrap)
         if ok:
             oracle_distance(ctx, a, b, wrap, res, case)
+    # an inner location whose exons overlap each other (ribosomal slippage, shared stop codon): containment is decided
+    # part by part, the summed length of the parts says nothing
+    for loc in locs[:2]:
+        part = max(loc.parts, key=len)
+        if len(part) < 4:
+            continue
+        third = len(part) // 3
+        pieces = [FeatureLocation(part.start, part.end - third, loc.strand), FeatureLocation(part.start + third, part.end, loc.strand)]
+        while sum(len(piece) for piece in pieces) <= len(loc):
+            pieces.append(FeatureLocation(part.start + 1, part.end, loc.strand))
+        inner = CompoundLocation(pieces if loc.strand != -1 else pieces[::-1])
+        sticking_out = None
+        if part.end < length:
+            sticking_out = CompoundLocation([pieces[0], FeatureLocation(part.start + third, part.end + 1, loc.strand)])
+        for outer in (loc, FeatureLocation(part.start, part.end, loc.strand)):
+            for candidate in (inner, sticking_out):
+                if candidate is None:
+                    continue
+                ctx.count("class:contains-inner-with-overlapping-exons")
+                ok, res = _call(ctx, "contains-crash", case, L.location_contains_other, outer, candidate)
+                if ok:
+                    oracle_contains(ctx, outer, candidate, res, dict(case, op="contains-overlapping-exons",
+                                                                     outer=G.to_case(outer), inner=G.to_case(candidate)))
     for loc, off in zip(locs, case["offsets"]):
         oracle_string_roundtrip(ctx, loc, case)
         oracle_bridges(ctx, loc, length, case)
